@@ -234,6 +234,8 @@ def cfg_kwargs(cfg, handler=None):
     )
     if handler is not None:
         kw["errorhandler"] = handler
+    if "bufsize" in cfg:
+        kw["bufsize"] = cfg["bufsize"]
     return kw
 
 
